@@ -4,6 +4,7 @@ import json, glob, os, re
 
 HEAD = open('/verif/seeded/SUMMARY.head.md').read() if os.path.exists('/verif/seeded/SUMMARY.head.md') else ''
 rows = []
+ood = []
 det = 0
 # last complete re-run of everything against the current harness
 regress = {}
@@ -28,6 +29,9 @@ for d in sorted(glob.glob('/verif/seeded/*/')):
         # reverted fixes are only run by tools_seed_regress.sh
         m['detected_by'] = [m['property']]
         sig = regress[m['name']].split(': ', 1)[-1]
+    if m.get('out_of_domain'):
+        ood.append((m['name'], m['out_of_domain']))
+        continue
     if m['property'] in m.get('detected_by', []):
         det += 1
     rows.append('| %s | %s | %s | %s | %s | %s | %s | `%s` |' % (
@@ -36,5 +40,9 @@ for d in sorted(glob.glob('/verif/seeded/*/')):
 out = HEAD.replace('@N@', str(len(rows))).replace('@DET@', str(det))
 out += '\n| name | property | change | needs | file(s) | detected by | not detected by (also run) | first signature |\n|---|---|---|---|---|---|---|---|\n'
 out += '\n'.join(rows) + '\n'
+if ood:
+    out += '\nConfirmed changes that are outside the domain of the property they were written for (kept for the record, not counted):\n\n'
+    for n, why in ood:
+        out += '- %s: %s\n' % (n, why)
 open('/verif/seeded/SUMMARY.md', 'w').write(out)
 print(len(rows), 'changes,', det, 'detected by the targeted property')
